@@ -1,6 +1,7 @@
 package main
 
 import (
+	"sort"
 	"go/ast"
 	"go/token"
 	"go/types"
@@ -20,6 +21,7 @@ func init() {
 			{ID: "C10.R4", Floor: 2, Doc: "ring walks cover all ring positions (j < len(tokens), index modulo len(tokens))", Run: c10r4},
 			{ID: "C10.R5", Floor: 3, Doc: "strategy selection by class; invalid options give no strategy", Run: c10r5},
 			{ID: "C10.R6", Floor: 2, Doc: "NetworkTopologyStrategy: in every block, hosts appended to the replica list and additions to the per-DC replica count balance", Run: c10r6},
+			{ID: "C10.R7", Floor: 2, Doc: "the replica list stored for a token range is built in that range's own iteration (fresh list filled by the walk from that token), never taken from a cache or an outer variable", Run: c10r7},
 		},
 	})
 }
@@ -424,118 +426,408 @@ func c10r6(p *Program, r *Report) {
 		m, ok := info.TypeOf(ix.X).Underlying().(*types.Map)
 		return ok && types.Identical(m.Elem(), types.Typ[types.Int]) && types.Identical(m.Key(), types.Typ[types.String])
 	}
-	type tally struct {
-		app, cnt map[string]int
-		node     ast.Node
+	// the walk loop: the innermost loop whose body appends to the replica list outside a nested counting loop
+	var walk *ast.ForStmt
+	ast.Inspect(fi.Decl.Body, func(x ast.Node) bool {
+		f, ok := x.(*ast.ForStmt)
+		if !ok {
+			return true
+		}
+		for _, c := range callsIn(f.Body) {
+			if calleeName(info, c) == "builtin.delete" {
+				_ = c
+			}
+		}
+		hasCount := false
+		ast.Inspect(f.Body, func(y ast.Node) bool {
+			if ix, ok := y.(*ast.IndexExpr); ok && isCountExpr(ix) {
+				hasCount = true
+			}
+			return true
+		})
+		if hasCount && walk == nil {
+			walk = f
+		}
+		return true
+	})
+	if walk == nil {
+		r.Unresolved("networkTopology.replicaMap: the clockwise walk loop that counts replicas per datacenter was not found")
+		return
 	}
-	nblocks := 0
-	var visit func(list []ast.Stmt, owner ast.Node)
-	visit = func(list []ast.Stmt, owner ast.Node) {
-		t := tally{app: map[string]int{}, cnt: map[string]int{}, node: owner}
-		countVars := map[string]bool{}
+	// affine forms over symbols: "" (constant), "C" (the count at the start of the iteration), loop counters
+	type lin map[string]int
+	add := func(a, b lin, sign int) lin {
+		n := lin{}
+		for k, v := range a {
+			n[k] = v
+		}
+		for k, v := range b {
+			n[k] += sign * v
+		}
+		for k, v := range n {
+			if v == 0 {
+				delete(n, k)
+			}
+		}
+		return n
+	}
+	str := func(a lin) string {
+		var ks []string
+		for k := range a {
+			ks = append(ks, k)
+		}
+		sort.Strings(ks)
+		var parts []string
+		for _, k := range ks {
+			if k == "" {
+				parts = append(parts, itoa(a[k]))
+			} else {
+				parts = append(parts, itoa(a[k])+"*"+k)
+			}
+		}
+		if len(parts) == 0 {
+			return "0"
+		}
+		return strings.Join(parts, " + ")
+	}
+	type pstate struct {
+		env   map[string]lin // int locals
+		app   lin            // hosts appended in this iteration
+		count lin            // current value of replicasInDC[dc]
+		done  bool
+		unk   string
+	}
+	clone := func(s *pstate) *pstate {
+		n := &pstate{env: map[string]lin{}, app: add(s.app, nil, 1), count: add(s.count, nil, 1), done: s.done, unk: s.unk}
+		for k, v := range s.env {
+			n.env[k] = add(v, nil, 1)
+		}
+		return n
+	}
+	var evalLin func(s *pstate, e ast.Expr) (lin, bool)
+	evalLin = func(s *pstate, e ast.Expr) (lin, bool) {
+		e = ast.Unparen(e)
+		if k, ok := constInt(info, e); ok {
+			return lin{"": int(k)}, true
+		}
+		if isCountExpr(e) {
+			return s.count, true
+		}
+		switch x := e.(type) {
+		case *ast.Ident:
+			if v, ok := s.env[x.Name]; ok {
+				return v, true
+			}
+		case *ast.BinaryExpr:
+			a, ok1 := evalLin(s, x.X)
+			b, ok2 := evalLin(s, x.Y)
+			if ok1 && ok2 {
+				switch x.Op {
+				case token.ADD:
+					return add(a, b, 1), true
+				case token.SUB:
+					return add(a, b, -1), true
+				}
+			}
+		}
+		return nil, false
+	}
+	var exec func(list []ast.Stmt, in []*pstate) []*pstate
+	exec = func(list []ast.Stmt, in []*pstate) []*pstate {
+		states := in
 		for _, st := range list {
-			switch s := st.(type) {
-			case *ast.AssignStmt:
-				if c, ok := isReplicaAppend(s); ok {
-					if c.Ellipsis.IsValid() {
-						sym := "?"
-						if sl, ok := ast.Unparen(c.Args[1]).(*ast.SliceExpr); ok && sl.High != nil && sl.Low == nil {
-							sym = exprStr(sl.High)
-						}
-						t.app[sym]++
-					} else {
-						t.app["1"] += len(c.Args) - 1
-					}
+			var next []*pstate
+			for _, s := range states {
+				if s.done {
+					next = append(next, s)
 					continue
 				}
-				if len(s.Lhs) == 1 && len(s.Rhs) == 1 {
-					lhs, rhs := s.Lhs[0], ast.Unparen(s.Rhs[0])
-					// x := count + 1
-					if b, ok := rhs.(*ast.BinaryExpr); ok && b.Op == token.ADD && isCountExpr(b.X) {
-						if k, ok := constInt(info, b.Y); ok && (s.Tok == token.DEFINE || s.Tok == token.ASSIGN) {
-							t.cnt["1"] += int(k)
-							countVars[exprStr(lhs)] = true
-							continue
-						}
-					}
-					// x += k  on a count variable or the count itself
-					if s.Tok == token.ADD_ASSIGN && (countVars[exprStr(lhs)] || isCountExpr(lhs) || true) {
-						if _, isInt := info.TypeOf(lhs).Underlying().(*types.Basic); isInt && (isCountExpr(lhs) || strings.HasPrefix(exprStr(lhs), "r")) {
-							if k, ok := constInt(info, rhs); ok {
-								t.cnt["1"] += int(k)
+				switch x := st.(type) {
+				case *ast.AssignStmt:
+					if c, ok := isReplicaAppend(x); ok {
+						if c.Ellipsis.IsValid() {
+							if sl, ok := ast.Unparen(c.Args[1]).(*ast.SliceExpr); ok && sl.Low == nil && sl.High != nil {
+								if v, ok := evalLin(s, sl.High); ok {
+									s.app = add(s.app, v, 1)
+								} else {
+									s.app = add(s.app, lin{exprStr(sl.High): 1}, 1)
+								}
 							} else {
-								t.cnt[exprStr(rhs)]++
+								s.unk = "append of an unknown number of hosts at " + p.Pos(x)
 							}
+						} else {
+							s.app = add(s.app, lin{"": len(c.Args) - 1}, 1)
+						}
+						next = append(next, s)
+						continue
+					}
+					if len(x.Lhs) == 1 && len(x.Rhs) == 1 {
+						lhs := ast.Unparen(x.Lhs[0])
+						isInt := false
+						if t := info.TypeOf(lhs); t != nil {
+							if b, ok := t.Underlying().(*types.Basic); ok && b.Info()&types.IsInteger != 0 {
+								isInt = true
+							}
+						}
+						if isInt {
+							v, ok := evalLin(s, x.Rhs[0])
+							cur, okCur := evalLin(s, lhs)
+							switch x.Tok {
+							case token.ADD_ASSIGN:
+								if ok && okCur {
+									v = add(cur, v, 1)
+								} else {
+									ok = false
+								}
+							case token.SUB_ASSIGN:
+								if ok && okCur {
+									v = add(cur, v, -1)
+								} else {
+									ok = false
+								}
+							}
+							if isCountExpr(lhs) {
+								if ok {
+									s.count = v
+								} else {
+									s.unk = "the per-datacenter count is set to " + exprStr(x.Rhs[0]) + " at " + p.Pos(x)
+								}
+							} else if id, isId := lhs.(*ast.Ident); isId {
+								if ok {
+									s.env[id.Name] = v
+								} else {
+									delete(s.env, id.Name)
+								}
+							}
+						}
+					}
+					next = append(next, s)
+				case *ast.DeclStmt:
+					// var k int
+					if gd, ok := x.Decl.(*ast.GenDecl); ok {
+						for _, sp := range gd.Specs {
+							if vs, ok := sp.(*ast.ValueSpec); ok && len(vs.Values) == 0 {
+								for _, nm := range vs.Names {
+									if t := info.TypeOf(nm); t != nil {
+										if b, ok := t.Underlying().(*types.Basic); ok && b.Info()&types.IsInteger != 0 {
+											s.env[nm.Name] = lin{}
+										}
+									}
+								}
+							}
+						}
+					}
+					next = append(next, s)
+				case *ast.IncDecStmt:
+					if isCountExpr(x.X) {
+						d := 1
+						if x.Tok == token.DEC {
+							d = -1
+						}
+						s.count = add(s.count, lin{"": d}, 1)
+					} else if id, ok := x.X.(*ast.Ident); ok {
+						if v, ok := s.env[id.Name]; ok {
+							d := 1
+							if x.Tok == token.DEC {
+								d = -1
+							}
+							s.env[id.Name] = add(v, lin{"": d}, 1)
+						}
+					}
+					next = append(next, s)
+				case *ast.BranchStmt:
+					s.done = true
+					next = append(next, s)
+				case *ast.ExprStmt:
+					if c, ok := x.X.(*ast.CallExpr); ok && calleeName(info, c) == "builtin.panic" {
+						continue // the path ends in a panic: not an iteration outcome
+					}
+					next = append(next, s)
+				case *ast.IfStmt:
+					if x.Init != nil {
+						for _, r2 := range exec([]ast.Stmt{x.Init}, []*pstate{s}) {
+							s = r2
+						}
+					}
+					t := exec(x.Body.List, []*pstate{clone(s)})
+					var e []*pstate
+					switch el := x.Else.(type) {
+					case *ast.BlockStmt:
+						e = exec(el.List, []*pstate{clone(s)})
+					case *ast.IfStmt:
+						e = exec([]ast.Stmt{el}, []*pstate{clone(s)})
+					default:
+						e = []*pstate{clone(s)}
+					}
+					next = append(next, t...)
+					next = append(next, e...)
+				case *ast.ForStmt:
+					// counting loop `for ; k < ...; k++ { ...; replicas = append(replicas, x) }`: k more hosts, k is a symbol
+					inc, okInc := x.Post.(*ast.IncDecStmt)
+					napp, other := 0, false
+					for _, bs := range x.Body.List {
+						if as, ok := bs.(*ast.AssignStmt); ok {
+							if c, ok := isReplicaAppend(as); ok && !c.Ellipsis.IsValid() {
+								napp += len(c.Args) - 1
+								continue
+							}
+							for _, l := range as.Lhs {
+								if isCountExpr(l) {
+									other = true
+								}
+							}
+						}
+					}
+					if okInc && inc.Tok == token.INC && !other {
+						if id, ok := inc.X.(*ast.Ident); ok {
+							start, known := s.env[id.Name]
+							if !known || len(start) != 0 {
+								s.unk = "counting loop at " + p.Pos(x) + " does not start at a zero counter"
+							}
+							s.env[id.Name] = lin{id.Name: 1}
+							s.app = add(s.app, lin{id.Name: napp}, 1)
+							next = append(next, s)
 							continue
 						}
 					}
+					if napp > 0 || other {
+						s.unk = "loop at " + p.Pos(x) + " changes the replica list or the count in a way that is not a simple counting loop"
+					}
+					next = append(next, s)
+				case *ast.RangeStmt:
+					touches := false
+					ast.Inspect(x.Body, func(y ast.Node) bool {
+						if as, ok := y.(*ast.AssignStmt); ok {
+							if _, ok := isReplicaAppend(as); ok {
+								touches = true
+							}
+						}
+						if ix, ok := y.(*ast.IndexExpr); ok && isCountExpr(ix) {
+							touches = true
+						}
+						return true
+					})
+					if touches {
+						s.unk = "range loop at " + p.Pos(x) + " changes the replica list or the count"
+					}
+					next = append(next, s)
+				case *ast.BlockStmt:
+					next = append(next, exec(x.List, []*pstate{s})...)
+				default:
+					next = append(next, s)
 				}
-			case *ast.IncDecStmt:
-				if s.Tok == token.INC && isCountExpr(s.X) {
-					t.cnt["1"]++
-				}
-			case *ast.ForStmt:
-				// counting loop: `for ; k < ...; k++ { ... append(replicas, x) ... }` contributes k appends
-				napp := 0
-				for _, bs := range s.Body.List {
-					if as, ok := bs.(*ast.AssignStmt); ok {
-						if c, ok := isReplicaAppend(as); ok && !c.Ellipsis.IsValid() {
-							napp += len(c.Args) - 1
+			}
+			states = next
+			if len(states) > 4096 {
+				break
+			}
+		}
+		return states
+	}
+	start := &pstate{env: map[string]lin{}, app: lin{}, count: lin{"C": 1}}
+	paths := exec(walk.Body.List, []*pstate{start})
+	if len(paths) == 0 || len(paths) > 4096 {
+		r.Unresolved("networkTopology.replicaMap: %d paths through one step of the walk", len(paths))
+		return
+	}
+	seen := map[string]bool{}
+	for _, s := range paths {
+		if s.unk != "" {
+			r.Unresolved("networkTopology.replicaMap: %s", s.unk)
+			continue
+		}
+		delta := add(s.count, lin{"C": 1}, -1)
+		key := "appended " + str(s.app) + ", counted " + str(delta)
+		if seen[key] {
+			continue
+		}
+		seen[key] = true
+		r.Check(str(s.app) == str(delta), walk, "(*networkTopology).replicaMap walk step: "+key, "hosts appended == increase of the per-datacenter count",
+			"on a path through one step of the clockwise walk "+str(s.app)+" host(s) are appended to the replica list while the per-datacenter replica count grows by "+str(delta)+": the walk then takes too many (or too few) nodes of that datacenter and another datacenter loses its slots")
+	}
+}
+
+// c10r7: the replicas of a token range depend on the ring positions that follow that very token. The list stored
+// for a range must therefore be created inside the iteration for that token (make / nil literal, then appended
+// to); a list obtained from a map, an outer variable or a call is shared between ranges whose successors differ.
+func c10r7(p *Program, r *Report) {
+	for _, name := range []string{"(*simpleStrategy).replicaMap", "(*networkTopology).replicaMap"} {
+		fi := r.NeedFunc(name)
+		if fi == nil {
+			continue
+		}
+		info := fi.Pkg.TypesInfo
+		n := 0
+		ast.Inspect(fi.Decl.Body, func(x ast.Node) bool {
+			cl, ok := x.(*ast.CompositeLit)
+			if !ok || typeNameOf(info.TypeOf(cl)) != "hostTokens" || len(cl.Elts) != 2 {
+				return true
+			}
+			var listExpr ast.Expr = cl.Elts[1]
+			if kv, ok := listExpr.(*ast.KeyValueExpr); ok {
+				listExpr = kv.Value
+			}
+			id, ok := ast.Unparen(listExpr).(*ast.Ident)
+			if !ok {
+				return true
+			}
+			n++
+			obj := info.Uses[id]
+			// the token loop this store belongs to
+			loop, _ := p.enclosing(cl, fi.Decl, func(m ast.Node) bool { _, is := m.(*ast.RangeStmt); return is }).(*ast.RangeStmt)
+			var bad []string
+			ndef := 0
+			ast.Inspect(fi.Decl.Body, func(y ast.Node) bool {
+				switch s := y.(type) {
+				case *ast.AssignStmt:
+					for i, l := range s.Lhs {
+						lid, ok := l.(*ast.Ident)
+						if !ok || (info.Defs[lid] != obj && info.Uses[lid] != obj) {
+							continue
+						}
+						ndef++
+						if loop != nil && !posWithin(loop.Body, s.Pos()) {
+							bad = append(bad, p.Pos(s)+": defined outside the per-token loop")
+							continue
+						}
+						var rhs ast.Expr
+						if len(s.Rhs) == len(s.Lhs) {
+							rhs = ast.Unparen(s.Rhs[i])
+						} else {
+							rhs = ast.Unparen(s.Rhs[0])
+						}
+						okDef := false
+						switch v := rhs.(type) {
+						case *ast.CallExpr:
+							f := exprStr(v.Fun)
+							okDef = f == "make" || f == "append" && len(v.Args) > 0 && exprStr(v.Args[0]) == id.Name
+						case *ast.CompositeLit:
+							okDef = true
+						case *ast.Ident:
+							okDef = v.Name == "nil"
+						}
+						if !okDef {
+							bad = append(bad, p.Pos(s)+": "+id.Name+" = "+exprStr(rhs))
+						}
+					}
+				case *ast.ValueSpec:
+					for _, vn := range s.Names {
+						if info.Defs[vn] == obj {
+							ndef++
+							if loop != nil && !posWithin(loop.Body, s.Pos()) {
+								bad = append(bad, p.Pos(s)+": declared outside the per-token loop")
+							}
 						}
 					}
 				}
-				if napp > 0 {
-					if inc, ok := s.Post.(*ast.IncDecStmt); ok && inc.Tok == token.INC && napp == 1 {
-						t.app[exprStr(inc.X)]++
-					} else {
-						t.app["?"]++
-					}
-				} else {
-					visit(s.Body.List, s)
-				}
-			case *ast.RangeStmt:
-				visit(s.Body.List, s)
-			case *ast.IfStmt:
-				var walkIf func(i *ast.IfStmt)
-				walkIf = func(i *ast.IfStmt) {
-					visit(i.Body.List, i)
-					switch e := i.Else.(type) {
-					case *ast.BlockStmt:
-						visit(e.List, i)
-					case *ast.IfStmt:
-						walkIf(e)
-					}
-				}
-				walkIf(s)
-			case *ast.BlockStmt:
-				visit(s.List, s)
-			}
+				return true
+			})
+			r.Check(ndef > 0 && len(bad) == 0, cl, name+": replica list of a token range is built for that range", "fresh list created and filled inside the token's own iteration",
+				"the list stored for a token range is not created in that range's iteration ("+strings.Join(bad, "; ")+"): ranges owned by one host but followed by different nodes share one replica list, so keys are routed to non-replicas")
+			return true
+		})
+		if n == 0 {
+			r.Unresolved("%s stores no hostTokens entry", name)
 		}
-		if len(t.app) == 0 && len(t.cnt) == 0 {
-			return
-		}
-		nblocks++
-		balanced := len(t.app) == len(t.cnt)
-		for k, v := range t.app {
-			if t.cnt[k] != v {
-				balanced = false
-			}
-		}
-		desc := func(m map[string]int) string {
-			var parts []string
-			for k, v := range m {
-				parts = append(parts, itoa(v)+"x"+k)
-			}
-			if len(parts) == 0 {
-				return "nothing"
-			}
-			return strings.Join(parts, " + ")
-		}
-		r.Check(balanced, owner, "(*networkTopology).replicaMap block appends and per-DC count balance", "appended "+desc(t.app)+", counted "+desc(t.cnt),
-			"in this block "+desc(t.app)+" host(s) are appended to the replica list but "+desc(t.cnt)+" is added to the per-datacenter replica count: the walk then adds too many (or too few) nodes of that datacenter and another datacenter loses its slots")
-	}
-	visit(fi.Decl.Body.List, fi.Decl)
-	if nblocks == 0 {
-		r.Unresolved("networkTopology.replicaMap: no block appends to the replica list")
 	}
 }
